@@ -124,4 +124,18 @@ theorem nodup_map_of_inj {α β : Type} (f : α → β) (hinj : ∀ a b, f a = f
   rw [List.pairwise_map]
   exact h.imp (fun hne e => hne (hinj _ _ e))
 
+/-- with the same number of slices in every volume, the running counter is the closed form `c + k · nz` -/
+theorem volsFrom_const_getElem? {φ : Type} (names : List φ) (nz c k : Nat) (hk : k < names.length) :
+    (volsFrom none c (names.map fun f => (f, nz)))[k]? = some (names[k], c + k * nz, c + k * nz + nz) := by
+  induction names generalizing c k with
+  | nil => simp at hk
+  | cons x xs ih =>
+    cases k with
+    | zero => simp [volsFrom, sliceList]
+    | succ k =>
+      have hk' : k < xs.length := by simpa using hk
+      simp only [List.map_cons, volsFrom, sliceList, List.length_range, List.getElem?_cons_succ, List.getElem_cons_succ]
+      rw [ih (c + nz) k hk']
+      congr 3 <;> simp only [Nat.succ_mul] <;> omega
+
 end DirectVerif.Dataset
